@@ -141,7 +141,7 @@ theorem sendSendReset_notEarly (s : Streams) (k : Nat) (r : Reason) (i : Initiat
     clear hs1
     split
     · exact h1
-    · refine (EvB.ne ?_).ne k hk1 h1
+    · refine (EvB.ne (ρ := true) ?_).ne k hk1 h1
       refine .trans ?_ (reclaimAllCapacity_ev _ _)
       refine .trans ?_ (queueFrame_ev _ _ _ rfl)
       split
@@ -181,7 +181,7 @@ theorem actionsSendReset_post (s1 : Streams) (k : Nat) (reason : Reason) (hk : k
   have h3 := sendSendReset_notEarly s2 k reason .library hk2
   have e3 : EvB true s2 (s2.sendSendReset k reason .library) := sendSendReset_ev _ _ _ _
   have hk3 : k < (s2.sendSendReset k reason .library).store.nextKey := Nat.lt_of_lt_of_le hk2 e3.ne.nextKey
-  refine (EvB.ne ?_).ne k hk3 h3
+  refine (EvB.ne (ρ := true) ?_).ne k hk3 h3
   have e12 : EvB true s1 s2 := by rw [← hs2]; exact modCountsA_ev _ _ _ (fun _ h => cstep_incErr h)
   have e4 : EvB true (s2.sendSendReset k reason .library)
       (((s2.sendSendReset k reason .library).enqueueResetExpiration k).modStreamW k Stream.notifyRecv) :=
@@ -277,7 +277,7 @@ theorem sendHeaders_ok_notEarly {s s' : Streams} {k : Nat} {eos : Bool} {f : Lis
       clear hs1
       simp only [Prod.mk.injEq] at h
       rw [← h.1]
-      refine (EvB.ne ?_).ne k hk1 h1
+      refine (EvB.ne (ρ := true) ?_).ne k hk1 h1
       split
       · next hpo =>
         have hl : s1.counts.isLocalInit (s1.stream k).id = true := by
@@ -359,7 +359,7 @@ theorem sendRequest_core_ev (s1 : Streams) (hA1 : KeysFresh s1) (id : Nat) (isHe
       ev_auto
     · intro _
       have hk4 : s2.store.nextKey < s4.store.nextKey := Nat.lt_of_lt_of_le hk3 e4.ne.nextKey
-      refine (EvB.ne ?_).ne _ hk4 hne
+      refine (EvB.ne (ρ := true) ?_).ne _ hk4 hne
       ev_auto
 
 theorem sendRequest_ev (s : Streams) (hA : KeysFresh s) (isHead : Bool) (fields : List Hpack.Field) (eos : Bool) (pending : Option Nat) :
@@ -533,7 +533,7 @@ theorem refSendPushPromise_ev (s : Streams) (hA : KeysFresh s) (hN : NextLocal s
             refine .trans e4 (.trans e5 ?_)
             ev_auto
           · intro _
-            refine (EvB.ne ?_).ne _ hk5 hne5
+            refine (EvB.ne (ρ := true) ?_).ne _ hk5 hne5
             ev_auto
 
 -- ===================================================================== clear_queues / recv_eof (`EvT`)
